@@ -144,6 +144,21 @@ reg(
     "DESIGN.md §3 C14",
 )
 
+reg(
+    "C15", "exploration",
+    "differential runtime monitor (shared instance vs. isolated replay) under enumerated sequential interleavings and enumerated release orders of gated LLM calls",
+    "347 (thorough ~4200) conversation sets on one LLMRails instance: (1) every interleaving of the turns of <=3 conversations (enumerated up to 6/20 interleavings, sampled above) with texts built to collide in a role-free ':'-join, mimic other roles, or print like context JSON; (2) asyncio.gather of generate_async on a gated LLM whose parked calls are released in every order (<=4 calls; sampled above) with per-conversation llm_params and gated rail actions. Each conversation is then replayed alone on a fresh instance with prompt-keyed identical answers: replies, the exact prompts, the LLM attributes at every call and the texts shown to rails must be equal, and at rest the LLM attributes must be the configured ones. Two mechanisms are open known findings (LLMParams save/restore under overlap; a new model_kwargs key left as None), recognised by a save/restore model that must reproduce every observed value.",
+    "trusts the prompt-keyed answer table and the gating of suspension points (asyncio interleavings at LLM and rail awaits only, no real threads); streaming handlers and observability contextvars are not compared",
+    "DESIGN.md §3 C15",
+)
+reg(
+    "C16", "exploration",
+    "table-driven model check of the real LLMRails.generate with recording rail actions, recording LLM and the returned log, exhaustive over the option/verdict grid",
+    "ALL 16 subsets of {input, dialog, retrieval, output} x ALL 3^(k+m) verdict vectors for k,m<=2 rails x option spellings (list, dict; thorough: partial dict, GenerationOptions object) x text pairs (incl. template/variable syntax; thorough: empty, unicode, multi-line, long) on general and dialog pipelines, plus named-rail selection and LLM-worded refusals: ~27k (thorough ~122k) cells, every one required conclusive. Oracle = the documented table: input-only reply (text / rewritten / refusal) with zero LLM calls; supplied bot message / rewritten / refusal with output; a rail wrapper fires only if its category is selected and, when selected and reached, in order; no LLM call with dialog off; log.activated_rails lists exactly the rails that ran with stop=True on exactly the blocker.",
+    "verdicts are scripted in harness-registered actions; a knowledge base, blocking retrieval rails, streaming and the single-call/passthrough pipelines in combination with options are not exercised",
+    "DESIGN.md §3 C16",
+)
+
 NOT_BUILT_REASON = "check not built yet in this revision (claimed by DESIGN.md; see §5 order of work)"
 
 
